@@ -1165,12 +1165,18 @@ class _Fn:
                 return False
             if kind == "any":
                 flag = body[0].targets[0].id
-                parts = [self.cond(body[0].value, False)]
+
+                def boolean(e):                            # the flag must BE a Boolean (Python keeps the operand's value)
+                    t, ty = self.expr(e, False)
+                    if ty != "bool":
+                        raise Unsupported(f"{where}: the flag {flag!r} is assigned a {ty} (`{ast.unparse(e)[:60]}`)")
+                    return t
+                parts = [boolean(body[0].value)]
                 for b in body[1:-1]:
                     if isinstance(b, ast.AugAssign):
-                        parts.append(self.cond(b.value, False))
+                        parts.append(boolean(b.value))
                     else:                                  # flag = flag or e
-                        parts.append(self.cond(b.value.values[1], False))
+                        parts.append(boolean(b.value.values[1]))
                 text = f"({src}.any (fun {v} => {pre}({' || '.join(parts)})))"
                 self.lam -= 1
                 try:
